@@ -245,10 +245,13 @@ def check_case(case, rec):
                   msg='OPDFan pupil coordinate axis is not linspace(-1, 1, num_rays)')
     elif kind == 'vs-field':
         from optiland.analysis.rms_vs_field import RmsWavefrontErrorVsField
-        nf, nr = 5, max(2, min(6, case['n']))
-        o = RmsWavefrontErrorVsField(lens, num_fields=nf, wavelengths=[wl], num_rays=nr, distribution='hexapolar')
+        # every named (deterministic) distribution: the curve is the RMS over ITS samples
+        dname = case['dist'] if case['dist'] in ('hexapolar', 'uniform', 'cross', 'ring', 'line_x', 'line_y') else 'hexapolar'
+        nf, nr = 5, (max(2, min(6, case['n'])) if dname == 'hexapolar' else max(4, case['n']))
+        rec.cls(f'vs-field-distribution-{dname}')
+        o = RmsWavefrontErrorVsField(lens, num_fields=nf, wavelengths=[wl], num_rays=nr, distribution=dname)
         got = np.asarray(o._wavefront_error, float)
-        d = make_dist('hexapolar', nr, 0)
+        d = make_dist(dname, nr, 0)
         want, sane = [], []
         for h in np.linspace(0, 1, nf):
             ora, _, meta = oracle_W(spec, lens2, float(h), wl, d.x, d.y, n_prev, n_obj)
